@@ -516,7 +516,7 @@ Section Bbox.
     apply negb_true_iff in Hr1, Hr2. apply orb_false_iff in Hr1. destruct Hr1 as [Hr1 Hr1'].
     rewrite Hr1, Hr1', Hr2 in H.
     destruct (span_loop tau pi fuel (sort4 (lons c)) _) as [[l m4]|] eqn:Esp; [|discriminate].
-    apply (span_loop_inv tau pi tau_pos) in Esp; [|apply sort4_sorted].
+    apply span_loop_inv in Esp; [|apply sort4_sorted].
     destruct l as [[[l0 l1] l2] l3].
     destruct (shift_up tau fuel (b_lon_min bx) (l0, l3) m4) as [[[u0 u3] m5]|]; [|discriminate].
     destruct (shift_down tau fuel (b_lon_min bx) (u0, u3) m5) as [[[v0 v3] m6]|]; [|discriminate].
@@ -569,7 +569,7 @@ Section Bbox.
     { destruct g' as [[[[a ka] [b kb]] [c0 kc]] [d kd]]. unfold fits in Hf'. unfold deficit. lia. }
     set (m3 := Qmin (Qmin (Qabs (b_lat_min bx - max4 (lats c))) (Qabs (b_lat_max bx - min4 (lats c))))
                     (Qmin (Qabs (max4 (lats c) - thr)) (Qabs (min4 (lats c) + thr)))).
-    destruct (span_loop_terminates_g tau pi tau_pos A Hpt (Z.to_nat (deficit g')) g' m3) as ([l m4] & Esp).
+    destruct (span_loop_terminates_g tau pi A Hpt (Z.to_nat (deficit g')) g' m3) as ([l m4] & Esp).
     { rewrite Hv'. apply sort4_sorted. } { exact Hf'. } { rewrite Z2Nat.id; lia. }
     rewrite Hv' in Esp. destruct l as [[[l0 l1] l2] l3].
     destruct (archimed_tau tau tau_pos (b_lon_min bx - l0)) as (n1 & Hn1).
